@@ -234,6 +234,14 @@ def check_fault_free(G, item, stats):
             if res[1] is not R.target:
                 V('lens-effect', 'returns-other-object/' + desc, 'the target itself', canon.canon(res[1])[:2])
             a, b = canon.snap_struct(R.after), canon.snap_struct(canon.snapshot(sh.root))
+            if a == b and not pathedit.has_wild(item['segs']) and not (item['missing'] and verdict[1]):
+                try:
+                    dk = type(pathedit.walk(sh.root, item['segs'][:-1])).__name__
+                except pathedit.Absent:
+                    dk = None
+                if dk in ('SimDict', 'SimList', 'SimObj') and not any(e[3] == 'set' for e in R.k.log):
+                    V('lens-effect', 'container-own-set-method-bypassed/' + desc,
+                      "the container's own __setitem__/__setattr__ is called", 'assigned without calling it')
             if a != b:
                 why = 'state-differs-from-plain-python/' + desc
                 if item['missing'] and verdict[1]:
